@@ -218,11 +218,12 @@ str_lower = Function('str_lower', Str, Str)
 
 class SStr:
     """A text string: opaque z3 term of sort Str; literals are named constants with distinct ids."""
-    __slots__ = ('t', 'text')
+    __slots__ = ('t', 'text', 'parts')
 
-    def __init__(self, t, text=None):
+    def __init__(self, t, text=None, parts=None):
         self.t = t
         self.text = text
+        self.parts = parts      # for the result of 'lit{}lit{}'.format(...): [('lit', text) | ('str', SStr) | ('int', term)] in order
 
     @staticmethod
     def lit(text):
@@ -256,12 +257,45 @@ def literal_facts():
     return fs
 
 
+itoa_len = Function('itoa_len', I, I)          # str(n).encode(): decimal digits of an int (uninterpreted; only its shape is stated)
+itoa_at = Function('itoa_at', I, I, I)
+
+
 def str_encode(s):
+    if s.text is not None:
+        try:
+            return SBytes.lit(list(s.text.encode('utf-8')))
+        except UnicodeEncodeError:
+            pass
+    if s.parts is not None:
+        # UTF-8 encoding distributes over concatenation
+        pieces = []
+        for kind, v in s.parts:
+            if kind == 'lit':
+                pieces.append(SBytes.lit(list(v.encode('utf-8'))))
+            elif kind == 'str':
+                pieces.append(str_encode(v))
+            elif isinstance(v, int):
+                pieces.append(SBytes.lit(list(str(v).encode('ascii'))))
+            else:
+                pieces.append(SBytes(BYTES, itoa_len(v), lambda i, v=v: itoa_at(v, iv(i))))
+        return cat(BYTES, pieces)
     t = s.t
     return SBytes(BYTES, utf8_len(t), lambda i, t=t: utf8_at(t, iv(i)))
 
 
 def str_encode_facts(s):
+    if s.parts is not None:
+        out = []
+        i = fresh('ue')
+        for kind, v in s.parts:
+            if kind == 'str':
+                out += str_encode_facts(v)
+            elif kind == 'int' and not isinstance(v, int):
+                out += [itoa_len(v) >= 1, ForAll([i], And(itoa_at(v, i) >= 0, itoa_at(v, i) < 256), patterns=[itoa_at(v, i)])]
+        return out
+    if s.text is not None:
+        return []
     t = s.t
     i = fresh('ue')
     return [utf8_len(t) >= 0,
@@ -343,7 +377,15 @@ class SList:
 
     def append(self, v):
         n0, at0 = self.n, self.at
-        return SList(simplify(n0 + 1), lambda i: ite(iv(i) == n0, v, at0(i)))
+
+        def at(i):
+            c = simplify(iv(i) == n0)
+            if is_true(c):
+                return v
+            if is_false(c):
+                return at0(i)
+            return ite(c, v, at0(i))
+        return SList(simplify(n0 + 1), at)
 
     def concrete_len(self):
         s = simplify(self.n)
